@@ -17,7 +17,7 @@ from pgv.core import Fail
 ID = "C12"
 CASE_TIMEOUT_S = 20
 LEVEL = "fault_enumeration"
-RULE = ("Hypothesis draws a directory of 2-8 servable entries (files, HTML files, sub-directories; tame "
+RULE = ("Hypothesis draws a directory of 0-8 servable entries (files, HTML files, sub-directories; tame "
         "and hostile names), 1-2 faulty entries (kind x generated name, hence position), a directory "
         "handler, a nesting depth and a protocol form; the listing with the faults injected is compared "
         "entry-by-entry with the listing of the same directory without them.  Every case injects >= 1 "
@@ -46,7 +46,7 @@ def _fault_name(kind, base):
 
 @st.composite
 def _case(draw):
-    n = draw(st.integers(2, 8))
+    n = draw(st.sampled_from([0, 0, 1, 2, 3, 4, 5, 6, 7, 8]))  # also directories that hold nothing BUT unservable entries
     good = draw(st.lists(
         st.tuples(gen.names(), st.sampled_from(["f", "f", "d", "h"]), gen.text_content),
         min_size=n, max_size=n, unique_by=lambda t: t[0] + (".html" if t[1] == "h" else "")))
@@ -126,7 +126,8 @@ def _spec(case, with_faults):
         elif kind == "linktofile":
             # '.cap' (where per-file overrides are looked up) exists but is a link to a regular file, not a directory
             if with_faults:
-                spec.append([pre + name, "l", case["good"][0][0] + (".html" if case["good"][0][1] == "h" else "") if case["good"][0][1] != "d" else "nonexistent-target"])
+                g0 = case["good"][0] if case["good"] else None
+                spec.append([pre + name, "l", g0[0] + (".html" if g0[1] == "h" else "") if g0 and g0[1] != "d" else "nonexistent-target"])
         elif kind in ("fifo", "sock"):
             if with_faults:
                 spec.append([pre + name, kind, None])
